@@ -18,5 +18,5 @@ Extraction "../ocaml/gen/ModelC17.ml"
   sm9_hash1_impl sm9_hash1_spec sm9_hash2_impl sm9_hash2_spec
   sm9_sig_from_der sm9_sig_decode sm9_ct_from_der sm9_ct_decode sig_to_der ct_to_der g1_octets_ok
   I2equ I2is_one I2is_zero I4equ I4is_zero I12equ
-  modn_mul modn_pow modn_inv extract_t2 S2cj
+  modn_mul modn_pow modn_inv extract_t2 S2cj rand_range
   J1dbl J1add J1sub J1neg J1add_affine J1on_curve J1equ J1mul booth J2dbl J2add J2add_full J2sub J2neg J2mul J2on_curve.
